@@ -4,16 +4,18 @@
    What is proved for all inputs (any number of classes, units, edges): the index bookkeeping of cache_func, the
    alignment of the grouped edge lists (with its precondition, D46), both realisations of an edge projection (matrix
    product / indexed assignment) equal to the edge sum, the branch condition, the combination of several inputs and the
-   default rule (C04_partial, no guard since fix D57), the scalar collapse, and the END-TO-END composition:
-     C04_sound            wf c -> impl vec c st = Some r -> r = spec c st      (both modes; no guard since fix D59)
+   default rule (C04_partial), the scalar collapse, and the END-TO-END composition:
+     C04_sound            wf c -> impl vec c st = Some r -> r = spec c st      (both modes, no guard)
      C04_full_up_to_err   wf c -> impl vec c st = None \/ impl vec c st = Some (spec c st)
      C04_vec_equals_nonvec
-   i.e. the full statement holds up to the two loud classes: the only way Impl differs from Spec is by raising.
-   Loud classes (Impl = Err, the real code raises): D21 (C04_err_constant_rhs), D32 (C04_err_scalar_fanout); they refute
-   the literal full statement (C04_full_refuted).  D14 and D3 are repaired (D57, D59): `_before_D57/_before_D59` notes.
-   What is NOT proved: C04_no_err_statement — that the boolean guards no_constant_rhs and no_scalar_fanout characterise
-   the loud classes (guard true -> Impl does not raise).  C04_guarded_from_no_err shows that this is the only gap of
-   C04_guarded_statement; the correspondence run checks it on every generated circuit inside the guards. *)
+   The only way Impl differs from Spec is by raising, in the two loud classes D21 and D32 (C04_err_constant_rhs,
+   C04_err_scalar_fanout; the real code raises exactly there).  Both have model switches (Vectorize.fixed_D21 / fixed_D32,
+   false while the repairs are only proposed).  C04_repaired_never_raises + C04_full_of_repaired_model: with both switches
+   on, impl = Some spec for EVERY well-formed circuit; C04_full_when_repaired: the full statement itself, under the
+   hypotheses fixed_D21 = true, fixed_D32 = true (discharged by reflexivity once the switches are flipped).
+   While a switch is off: C04_full_refuted (conditional on fixed_D21 = false), and C04_no_err_statement (the boolean
+   guards characterise the loud classes) stays stated, not proved; C04_guarded_from_no_err.
+   D14, D3 repaired (D57, D59): `_before_D57/_before_D59` notes. *)
 From Coq Require Import List ZArith QArith Qcanon Bool Arith.
 From PV Require Import Vectorize VectorizeProofs.
 Import ListNotations.
@@ -78,8 +80,8 @@ Theorem C04_indexed_branch_condition : forall tsize ssize ti, dot_edge tsize ssi
 Proof. exact indexed_branch_condition. Qed.
 Print Assumptions C04_indexed_branch_condition.
 
-Theorem C04_branch_choice_preserves : forall tsize ssize m sval a u, aligned_m m ->
-  contrib tsize ssize m sval = Some a ->
+Theorem C04_branch_choice_preserves : forall f32 tsize ssize m sval a u, aligned_m m ->
+  contrib f32 tsize ssize m sval = Some a ->
   lookup a u = if mem u (mt m) then Some (tsum (mtriples m) sval u) else None.
 Proof. exact contrib_is_edge_sum. Qed.
 Print Assumptions C04_branch_choice_preserves.
@@ -90,22 +92,22 @@ Proof. exact idx_with_duplicates_refuted. Qed.
 Print Assumptions C04_indexed_with_duplicates_refuted.
 
 (* ---- several source vector nodes + default: the input of one target unit (composition of the above; no guard since D57) ---- *)
-Theorem C04_partial : forall tsize ssize sval ml cs rdef u, Forall aligned_m ml ->
-  all_some (map (fun m => contrib tsize (ssize m) m (sval m)) ml) = Some cs ->
+Theorem C04_partial : forall f32 tsize ssize sval ml cs rdef u, Forall aligned_m ml ->
+  all_some (map (fun m => contrib f32 tsize (ssize m) m (sval m)) ml) = Some cs ->
   input_of cs rdef u = if existsb (hits u) ml then msum ml sval u else rdef.
 Proof. exact input_is_edge_sum. Qed.
 Print Assumptions C04_partial.
 
 (* notes on the mechanism before fix D57 (D14): all buffers zero-initialised *)
-Theorem C04_partial_before_D57 : forall tsize ssize sval ml cs rdef u, Forall aligned_m ml ->
-  all_some (map (fun m => contrib tsize (ssize m) m (sval m)) ml) = Some cs ->
+Theorem C04_partial_before_D57 : forall f32 tsize ssize sval ml cs rdef u, Forall aligned_m ml ->
+  all_some (map (fun m => contrib f32 tsize (ssize m) m (sval m)) ml) = Some cs ->
   default_survives_at ml rdef u = true ->
   input_of_before_D57 cs rdef u = if existsb (hits u) ml then msum ml sval u else rdef.
 Proof. exact input_partial_before_D57. Qed.
 Print Assumptions C04_partial_before_D57.
 
-Theorem C04_unconnected_unit_gets_zero_before_D57 : forall tsize ssize sval ml cs rdef u, Forall aligned_m ml ->
-  all_some (map (fun m => contrib tsize (ssize m) m (sval m)) ml) = Some cs ->
+Theorem C04_unconnected_unit_gets_zero_before_D57 : forall f32 tsize ssize sval ml cs rdef u, Forall aligned_m ml ->
+  all_some (map (fun m => contrib f32 tsize (ssize m) m (sval m)) ml) = Some cs ->
   (2 <= length ml)%nat -> existsb (hits u) ml = false -> input_of_before_D57 cs rdef u = 0.
 Proof. exact unconnected_unit_gets_zero_before_D57. Qed.
 Print Assumptions C04_unconnected_unit_gets_zero_before_D57.
@@ -142,7 +144,7 @@ Theorem C04_guarded_from_no_err : C04_no_err_statement -> C04_guarded_statement.
 Proof. exact guarded_from_no_err. Qed.
 Print Assumptions C04_guarded_from_no_err.
 
-Theorem C04_full_refuted : ~ C04_full_statement.
+Theorem C04_full_refuted : fixed_D21 = false -> ~ C04_full_statement.
 Proof. exact full_statement_refuted. Qed.
 Print Assumptions C04_full_refuted.
 
@@ -165,16 +167,37 @@ Proof. exact refuted_source_var_before_D59. Qed.
 Print Assumptions C04_refuted_source_var_before_D59.
 
 Theorem C04_err_constant_rhs :
-  wf w_d21 = true /\ no_constant_rhs w_d21 = false /\ impl true w_d21 [q 1; q 2] = None /\
-  impl false w_d21 [q 1; q 2] = Some (spec w_d21 [q 1; q 2]).
+  wf w_d21 = true /\ no_constant_rhs w_d21 = false /\ impl_loud true w_d21 [q 1; q 2] = None /\
+  impl_loud false w_d21 [q 1; q 2] = Some (spec w_d21 [q 1; q 2]) /\
+  impl_gen input_of true false true true w_d21 [q 1; q 2] = Some (spec w_d21 [q 1; q 2]).
 Proof. exact err_constant_rhs. Qed.
 Print Assumptions C04_err_constant_rhs.
 
 Theorem C04_err_scalar_fanout :
-  wf w_d32 = true /\ no_scalar_fanout w_d32 = false /\ impl true w_d32 st_d32 = None /\
-  impl false w_d32 st_d32 = Some (spec w_d32 st_d32).
+  wf w_d32 = true /\ no_scalar_fanout w_d32 = false /\ impl_loud true w_d32 st_d32 = None /\
+  impl_loud false w_d32 st_d32 = Some (spec w_d32 st_d32) /\
+  impl_gen input_of true true false true w_d32 st_d32 = Some (spec w_d32 st_d32).
 Proof. exact err_scalar_fanout. Qed.
 Print Assumptions C04_err_scalar_fanout.
+
+(* for any setting of the switches: soundness; with both on: never raises, hence total correctness *)
+Theorem C04_sound_any_switch : forall f32 f21 vec c st r, wf c = true ->
+  impl_gen input_of true f32 f21 vec c st = Some r -> r = spec c st.
+Proof. exact impl_gen_sound. Qed.
+Print Assumptions C04_sound_any_switch.
+
+Theorem C04_repaired_never_raises : forall inp bv vec c st, impl_gen inp bv true true vec c st <> None.
+Proof. exact repaired_never_raises. Qed.
+Print Assumptions C04_repaired_never_raises.
+
+Theorem C04_full_of_repaired_model : forall vec c st, wf c = true ->
+  impl_gen input_of true true true vec c st = Some (spec c st).
+Proof. exact full_of_repaired_model. Qed.
+Print Assumptions C04_full_of_repaired_model.
+
+Theorem C04_full_when_repaired : fixed_D21 = true -> fixed_D32 = true -> C04_full_statement.
+Proof. exact full_when_repaired. Qed.
+Print Assumptions C04_full_when_repaired.
 
 (* non-vacuity: inside every guard, merged units, fan-in from two classes, parallel edges, self-connection, algebraic source,
    two edges without a weight entry (default weight 1), one of them after a weighted edge of the same group *)
